@@ -70,12 +70,12 @@ void dump_format(std::string& d, const OffsetFormat& f) {
 struct Snap {
   std::string sizes;
   size_t lab = 0, bnd = 0, rel = 0, fix = 0, adr = 0, nod = 0, cur = 0, off = 0;
-  uint64_t hash = 0;
+  uint64_t hash = 0, bhash = 0;
   std::string dump;
   std::string text() const {
     char b[256];
-    snprintf(b, sizeof b, "sec=%s lab=%zu bnd=%zu rel=%zu fix=%zu adr=%zu nod=%zu cur=%zu off=%zu h=%llx", sizes.c_str(), lab, bnd, rel, fix, adr,
-             nod, cur, off, (unsigned long long)hash);
+    snprintf(b, sizeof b, "sec=%s lab=%zu bnd=%zu rel=%zu fix=%zu adr=%zu nod=%zu cur=%zu off=%zu h=%llx bh=%llx", sizes.c_str(), lab, bnd, rel, fix, adr,
+             nod, cur, off, (unsigned long long)hash, (unsigned long long)bhash);
     return b;
   }
 };
@@ -103,6 +103,16 @@ Snap snapshot(Side& s) {
   std::string& d = sn.dump;
   CodeHolder& c = s.code;
   char b[256];
+  {
+    std::string all;
+    for (Section* sec : c.sections()) {
+      if (sec->section_id()) all += "/";
+      all += vh::bytes_to_hex(sec->data(), sec->buffer_size());
+    }
+    vh::Fnv bf;
+    bf.add(all);
+    sn.bhash = bf.h;
+  }
   for (Section* sec : c.sections()) {
     if (!sn.sizes.empty()) sn.sizes += ",";
     sn.sizes += std::to_string(sec->buffer_size());
@@ -519,11 +529,11 @@ std::string step(const std::string& line) {
 
   // shadow: sees the call only when the test side accepted it
   Snap sh;
-  if (r.err == Error::kOk) {
+  if (r.err == Error::kOk || w[0] == "finalize") {
     CallOut rs;
     try { rs = do_call(*S.shadow, w); } catch (const Thrown& th) { rs.err = th.err; }
     sh = snapshot(*S.shadow);
-    if (rs.err != Error::kOk) sh.sizes += "!shadow-refused-" + std::to_string(uint32_t(rs.err));
+    if (rs.err != r.err) sh.sizes += "!shadow-answered-" + std::to_string(uint32_t(rs.err));
   } else {
     sh = snapshot(*S.shadow);
   }
